@@ -83,7 +83,10 @@ def run_c19(res, rng):
     from runner import correspondence
     cc = gen_dec.copy_cases(rng.fork('copy'), 'copy', 120 if res.tier == 'quick' else 4000)
     correspondence(res, cc, lambda c, lines: [l for l in lines if l.startswith(('K ', 'N '))], gen_dec.judge_copy, 'copied decoder is a separate instance')
-    cases = cases + cc
+    # ... and so are copies of a status tracker: copy a populated one, feed the copy, look at the original again
+    sc = [props_misc.gen_c16_copy(rng.fork('scopy%d' % j), 'scopy%d' % j) for j in range(60 if res.tier == 'quick' else 2000)]
+    correspondence(res, sc, lambda c, lines: [l for l in lines if l.startswith('S')], props_misc.judge_c16, 'copied status tracker is a separate instance')
+    cases = cases + cc + sc
     res.cov['evaluations'] = len(cases) * (1 + len(runs))
     res.cov['distinct_nontrivial'] = len(set(tuple(c.lines) for c in cases))
     res.cov['schedules'] = [name for name, _ in runs]
@@ -91,7 +94,7 @@ def run_c19(res, rng):
     res.cov['judge_failures'] = nbad
     res.cov['traces_validated_against_impl'] = len(cases) - ndiff
     res.cov['rule'] = ('mixed workload (encoder batches and histories, decoder histories incl. TECMP through the static TECMP decoder, payload builders, status sequences), each case with its own Encoder/Decoder/Status objects; '
-                       'run once sequentially and once with the cases distributed over 8 (quick) / 16 (thorough) threads without synchronisation (ASan build; TSan build in the thorough tier); per-case transcripts must be identical and equal to the model\'s; plus decoders copied while reassemblies are pending, original and copy then driven with the same remaining frames in any merge order (judge: each behaves as a reference decoder with a deep copy of the state). non-trivial = distinct cases')
+                       'run once sequentially and once with the cases distributed over 8 (quick) / 16 (thorough) threads without synchronisation (ASan build; TSan build in the thorough tier); per-case transcripts must be identical and equal to the model\'s; plus decoders copied while reassemblies are pending, original and copy then driven with the same remaining frames in any merge order (judge: each behaves as a reference decoder with a deep copy of the state); plus status trackers copied when populated, the copy fed (first the interface each device saw last), the original shown again (judge: latest-message map per object). non-trivial = distinct cases')
     res.cov['samples'] = [dict(case=c.cid, script=[l[:120] for l in c.lines[:3]]) for c in cases[:3]]
 
 def stray_cases(rng, n):
@@ -116,6 +119,10 @@ def run_c20(res, rng):
         res.cov['members_without_initialiser'] = coq_eval('bad_members', 'CMP.Inventory CMPGen.GenInventory CMPGen.GenLayout')
     n = 240 if res.tier == 'quick' else 4000
     cases = mixed_workload(rng, n) + stray_cases(rng, 120 if res.tier == 'quick' else 2000)
+    # truncated TECMP status messages whose inner length agrees with the truncation: a read just behind the buffer returns foreign heap bytes
+    ct = gen_dec.tecmp_consistent_truncations(rng.fork('ctrunc'))
+    for j in range(0, len(ct), 80):
+        cases.append(Case('ct%d' % j, [gen_dec.feed_line(1, x) for x in ct[j:j + 80]], dict(frames=ct[j:j + 80])))
     model = run_model(cases)
     outs = []
     # fresh operator-new blocks are pre-filled with a repeating pattern: uniform bytes and patterns that look like plausible field values
